@@ -383,6 +383,10 @@ func runProperty(repo, verif, prop string, cfg *PropCfg, tier string, overlay ma
 	for n := range e.Notes {
 		res.Abstract = append(res.Abstract, n)
 	}
+	verifiedFn := map[string]bool{}
+	for _, fc := range fcs {
+		verifiedFn[fc.key] = true
+	}
 	// expected obligations (fail closed if the generator produced fewer labelled obligations than it is known to need)
 	for n := range exp[prop] {
 		// frame obligations exist only for components a function happens to write: their presence follows the code, not
@@ -390,7 +394,17 @@ func runProperty(repo, verif, prop string, cfg *PropCfg, tier string, overlay ma
 		if strings.Contains(n, "#modifies:") {
 			continue
 		}
-		if byName[n] == nil && overlay == nil {
+		if overlay != nil {
+			// selftest: only the functions of patched files were verified
+			fn := n
+			if i := strings.Index(n, "#"); i >= 0 {
+				fn = n[:i]
+			}
+			if !verifiedFn[fn] {
+				continue
+			}
+		}
+		if byName[n] == nil {
 			res.Missing = append(res.Missing, n)
 		}
 	}
